@@ -1,6 +1,7 @@
 package main
 
 import (
+	"fmt"
 	"go/token"
 	"go/types"
 	"strings"
@@ -38,7 +39,7 @@ func fieldsRead(fn *ssa.Function, structName string, into map[string]bool) {
 }
 
 func propC06(c *Check) {
-	c.Explain = "Decides the structure of canonical transaction encoding: (1) unmarshalVersionedTransaction accepts only past the size gate (before decoding) and bytes.Equal(re-encoding, input), where the re-encoder marshalWithCapacity -> EncodeTransaction is the same function Marshal reaches, so 'accepted bytes re-encode to themselves' holds by construction on every path; (2) Decoder.DecodeTransaction is called only from that function (no decode path bypasses the canonical gate); (3) order leak: every map iteration in the encoder call tree only fills a slice that is sorted before anything is emitted (EncodeSignatures sorts by index); (4) field coverage: payloadMarshal builds SignedTransaction{Transaction: ver.Transaction} and nothing else (no signatures in the hash payload); every exported field of Transaction, Input, Output, DepositData, MintData and WithdrawalData is read by EncodeTransaction/EncodeInput/EncodeOutput; PayloadHash is Blake3(PayloadMarshal()); (5) length-prefix discipline: every Write of a variable-length operand in those encoders is immediately preceded by a WriteInt/WriteUint32 of len(<the same operand>), fixed-size operands (array slices, magic/null markers, two-byte tags) are exempt, and optional members are introduced by the magic/null marker; (6) error discipline of the transaction decoders is shared with C07 (every Decoder read error is tested or returned). (7) every value returned by payloadMarshal is the encoding of the stripped literal (no path returns the signature-carrying encoding)."
+	c.Explain = "Decides the structure of canonical transaction encoding: (1) unmarshalVersionedTransaction accepts only past the size gate (before decoding) and bytes.Equal(re-encoding, input), where the re-encoder marshalWithCapacity -> EncodeTransaction is the same function Marshal reaches, so 'accepted bytes re-encode to themselves' holds by construction on every path; (2) Decoder.DecodeTransaction is called only from that function (no decode path bypasses the canonical gate); (3) order leak: every map iteration in the encoder call tree only fills a slice that is sorted before anything is emitted (EncodeSignatures sorts by index); (4) field coverage: payloadMarshal builds SignedTransaction{Transaction: ver.Transaction} and nothing else (no signatures in the hash payload); every exported field of Transaction, Input, Output, DepositData, MintData and WithdrawalData is read by EncodeTransaction/EncodeInput/EncodeOutput; PayloadHash is Blake3(PayloadMarshal()); (5) length-prefix discipline: every Write of a variable-length operand in those encoders is immediately preceded by a WriteInt/WriteUint32 of len(<the same operand>), fixed-size operands (array slices, magic/null markers, two-byte tags) are exempt, and optional members are introduced by the magic/null marker; (6) error discipline of the transaction decoders is shared with C07 (every Decoder read error is tested or returned). (6b) each `null` presence marker is written exactly on the true edge of a plain `member == nil` test whose false edge writes `magic` (absent and present-but-empty never share an encoding); (7) every value returned by payloadMarshal is the encoding of the stripped literal (no path returns the signature-carrying encoding)."
 	c.NotCov = "collision resistance; value-level decode(encode(x)) == x beyond what the canonical re-encoding gate gives for accepted bytes."
 	c.Floor(14)
 	w := c.W
@@ -222,6 +223,50 @@ func propC06(c *Check) {
 			}
 		}
 		c.Require(nm == 4, "shape", shortName(f)+"|optional markers", "deposit and mint members are each introduced by the magic / null marker", "marker writes: "+itoa(nm))
+	}
+	// the presence marker is decided by the pointer's nil-ness alone: `null` is written exactly on the
+	// true edge of `member == nil` and `magic` on its false edge. Any other condition makes two
+	// different values (absent / present-but-empty) share one encoding, hence one hash.
+	for _, fnName := range []string{"(*common.Encoder).EncodeInput", "(*common.Encoder).EncodeOutput"} {
+		f := c.F(fnName)
+		if f == nil {
+			continue
+		}
+		n, bad := 0, ""
+		for _, ci := range findCalls(f, "(*common.Encoder).Write") {
+			if !Global("null")(ci.Common().Args[1]) {
+				continue
+			}
+			n++
+			b := ci.(ssa.Instruction).Block()
+			ok := len(b.Preds) == 1
+			if ok {
+				iff, isIf := b.Preds[0].Instrs[len(b.Preds[0].Instrs)-1].(*ssa.If)
+				ok = isIf && b.Preds[0].Succs[0] == b
+				if ok {
+					bo, isBo := iff.Cond.(*ssa.BinOp)
+					ok = isBo && bo.Op == token.EQL && (ConstNil(bo.Y) || ConstNil(bo.X))
+					if ok {
+						_, isPtr := bo.X.Type().Underlying().(*types.Pointer)
+						ok = isPtr
+					}
+				}
+				if ok {
+					hasMagic := false
+					for _, ins := range b.Preds[0].Succs[1].Instrs {
+						if cl, isCall := ins.(*ssa.Call); isCall && Call("(*common.Encoder).Write", nil, Global("magic"))(cl) {
+							hasMagic = true
+						}
+					}
+					ok = hasMagic
+				}
+			}
+			if !ok {
+				bad = instrPos(w, ci)
+			}
+		}
+		c.Sites += n
+		c.Require(n >= 1 && bad == "", "shape", shortName(f)+"|presence marker iff member != nil", "every `null` marker is written exactly on the true edge of a plain `member == nil` test whose false edge writes `magic`", fmt.Sprintf("markers: %d; offending marker at %q", n, bad), c.W.Pos(f.Pos()))
 	}
 	// transaction decoders' error discipline (shared rule)
 	for _, n := range []string{"(*common.Decoder).DecodeTransaction", "(*common.Decoder).ReadInput", "(*common.Decoder).ReadOutput", "(*common.Decoder).ReadSignatures", "(*common.Decoder).ReadAggregatedSignature"} {
